@@ -204,6 +204,8 @@ def _float_key(rec):
     inp = rec.get("inputs") or {}
 
     def fl(x):
+        if isinstance(x, dict) and "float_bits" in x:
+            return struct.unpack(">d", int(x["float_bits"], 16).to_bytes(8, "big"))[0]
         return float(x) if x not in (None, "nan") else float("nan")
     a, b = fl(inp.get("a")), fl(inp.get("b"))
     same = (a != a and b != b) or struct.pack(">d", a) == struct.pack(">d", b)
